@@ -6,7 +6,7 @@ import importlib.util, os, re, shutil, subprocess, sys
 VERIF = os.path.dirname(os.path.dirname(os.path.abspath(__file__)))
 spec = importlib.util.spec_from_file_location("mutscan", os.path.join(VERIF, "tools", "mutscan.py"))
 src_txt = open(os.path.join(VERIF, "tools", "mutscan.py")).read().replace("\nmain()\n", "\n")
-ns: dict = {}
+ns: dict = {"__file__": os.path.join(VERIF, "tools", "mutscan.py"), "__name__": "mutscan"}
 exec(compile(src_txt, "mutscan", "exec"), ns)
 log = sys.argv[1]
 fixed_checks = None
